@@ -1,6 +1,6 @@
 (* one case per line:   <kind> <fixed 0|1> <progs> <schedule>
      progs    = thread programs separated by ';', ops separated by ',', op = letter:arg:arg
-                n:dst  p:dst:p  a:src:dst  r:src  w:src:wdst  u:w:dst  c:src:recv  f:p:src  v:src  s:a:b  t:src (State)
+                n:dst  p:dst:p  a:src:dst  r:src  w:src:wdst  u:w:dst  c:src:recv[:abn]  f:p:src  v:src  s:a:b  t:src (State)
      schedule = comma separated thread ids ("-" = empty): the step sequence the harness drove
                 the implementation through
    output:  <status> E:<events> R:<results per thread> H:<refs.calls.done.shut per hook> M:<enabled mask per step + final>
@@ -19,7 +19,8 @@ let parse_op (s : string) : op =
   | ["r"; a] -> ORelease (n (int_of_string a))
   | ["w"; a; d] -> OWeakRef (n (int_of_string a), n (int_of_string d))
   | ["u"; w; d] -> OWeakAdd (n (int_of_string w), n (int_of_string d))
-  | ["c"; a; r] -> OCall (n (int_of_string a), r = "1")
+  | ["c"; a; r] -> OCall (n (int_of_string a), r = "1", false)
+  | ["c"; a; r; abn] -> OCall (n (int_of_string a), r = "1", abn <> "0")
   | ["f"; p; a] -> OFulfill (n (int_of_string p), n (int_of_string a))
   | ["v"; a] -> OIsValid (n (int_of_string a))
   | ["s"; a; b] -> OIsSame (n (int_of_string a), n (int_of_string b))
@@ -38,10 +39,10 @@ let show_ev = function
   | EvRecv h -> "V" ^ string_of_int (int_of_nat h)
   | EvShutdown h -> "X" ^ string_of_int (int_of_nat h)
 
-let mask fixed g =
+let mask stepf g =
   let k = List.length g.threads in
   let m = ref 0 in
-  for t = 0 to k - 1 do if enabled fixed g (n t) then m := !m lor (1 lsl t) done;
+  for t = 0 to k - 1 do (match stepf g (n t) with Some _ -> m := !m lor (1 lsl t) | None -> ()) done;
   !m
 
 let show kind fixed g status masks =
@@ -56,7 +57,8 @@ let show kind fixed g status masks =
 let () = iter_lines (fun line ->
   match split_ws line with
   | kind :: fx :: progs :: sched :: _ ->
-    let fixed = (fx = "1") in
+    (* model variant: 1 = repaired code, 0 = code as found, 2 = seeded "early unlock" mutation *)
+    let fixed = (match fx with "0" -> step false | "2" -> step_early | _ -> step true) in
     let g0 = init (parse_progs progs) in
     let rec go g sched k masks =
       let m = mask fixed g in
@@ -66,7 +68,7 @@ let () = iter_lines (fun line ->
         let status = if not unf then "done" else if m = 0 then "stuck" else "cut" in
         show kind fixed g status (m :: masks)
       | t :: r ->
-        (match step fixed g (n t) with
+        (match fixed g (n t) with
          | None -> show kind fixed g (Printf.sprintf "bad@%d" k) (m :: masks)
          | Some g' -> go g' r (k + 1) (m :: masks))
     in
